@@ -31,8 +31,18 @@ def _sweep(base):
     for n in names:
         parts = n.split('.')
         if len(parts) == 3 and parts[0] in ('wnmc', 'wnmc16', 'wnmc16r') and parts[1].isdigit() \
-                and not os.path.exists(f'/proc/{parts[1]}'):
+                and not _is_check_process(parts[1]):
             shutil.rmtree(os.path.join(base, n), ignore_errors=True)
+
+
+def _is_check_process(pid):
+    """does this pid exist and belong to a run of this harness?  (process ids are re-used: a tree whose
+    number now belongs to an unrelated process is stale as well)"""
+    try:
+        cmd = open(f'/proc/{pid}/cmdline', 'rb').read()
+    except OSError:
+        return False
+    return b'check' in cmd or b'wnmc' in cmd
 
 
 def scratch_parent() -> str:
